@@ -4,7 +4,7 @@
 From Gokrb5.lib Require Import Bytes JV.
 From Gokrb5.model Require Import Crypto.
 From Gokrb5.prim Require CBC RC4.
-From Gokrb5.proofs Require Import CryptoBasic CTSProofs CryptoWf CryptoRoundTrip.
+From Gokrb5.proofs Require Import CryptoBasic CTSProofs CryptoWf CryptoRoundTrip CryptoLengths.
 
 Theorem C05_rc4_usage_alias : forall u,
   rc4_msg_type u = le_bytes 4 (rc4_alias u) /\ length (rc4_msg_type u) = 4%nat.
@@ -73,3 +73,21 @@ Example C05_roundtrip_nonvacuous :
   | _ => False
   end.
 Proof. vm_compute. reflexivity. Qed.
+
+(* ciphertext lengths a peer can rely on *)
+Theorem C05_aes_ciphertext_length : forall et key usage conf msg ct,
+  (et_family et = Some FAesSha1 \/ et_family et = Some FAesSha2) -> length conf = 16%nat ->
+  encrypt_with et key usage conf msg = Ok ct -> length ct = (16 + length msg + mac_len et)%nat.
+Proof. exact aes_ciphertext_length. Qed.
+Print Assumptions C05_aes_ciphertext_length.
+
+Theorem C05_rc4_ciphertext_length : forall key usage conf msg ct,
+  encrypt_with 23 key usage conf msg = Ok ct -> length ct = (16 + length conf + length msg)%nat.
+Proof. exact rc4_ciphertext_length. Qed.
+Print Assumptions C05_rc4_ciphertext_length.
+
+Theorem C05_des3_ciphertext_length : forall key usage conf msg ct,
+  encrypt_with 16 key usage conf msg = Ok ct ->
+  length ct = (length (conf ++ msg) + (8 - length (conf ++ msg) mod 8) mod 8 + 20)%nat.
+Proof. exact des3_ciphertext_length. Qed.
+Print Assumptions C05_des3_ciphertext_length.
